@@ -253,7 +253,10 @@ def run_harness(h, tier, playback=False, keep=False):
         z = ["-Z", "unstable-options"]
         if h["stubs"]:
             z += ["-Z", "stubbing"]
-        base = ["cargo", "kani"] + z + ["--harness", h["fq"], "--exact", "--target-dir", tdir]
+        # reachability ("UNREACHABLE") classification costs one SAT call per check and is not
+        # used by any verdict here (vacuity is guarded by cover witnesses and twins)
+        base = ["cargo", "kani"] + z + ["--no-assertion-reach-checks", "--harness", h["fq"], "--exact",
+                                        "--target-dir", tdir]
         rc, out, dt, to = run(base + ["--only-codegen"], cwd=SLICE, timeout=900, mem_gb=8)
         log = out
         if rc != 0:
